@@ -920,6 +920,16 @@ func (se *session) copyIn(cp StmtCopy) (alive, failed bool) {
 		}
 		return se.send(errResp(err)) == nil, true
 	}
+	// The verdict for the data phase is decided now, before CopyInResponse:
+	// pgx holds a sync.Mutex across its background read while it waits for the
+	// server's answer to CopyDone, so the session must not park at that point
+	// (a goroutine blocked on a mutex is not durably blocked for synctest).
+	// No state changes between here and CopyDone, so deciding early is
+	// equivalent to deciding then.
+	v, code := se.gate("copy", []string{"copydone " + cp.Table.Schema + "." + cp.Table.Name})
+	if v == DropBefore && len(oids) == 0 {
+		return false, false
+	}
 	fm := make([]uint16, len(oids))
 	for i := range fm {
 		fm[i] = 1
@@ -954,7 +964,6 @@ loop:
 		}
 		return se.send(errResp(pgErr("57014", "COPY from stdin failed: %s", failMsg))) == nil, true
 	}
-	v, code := se.gate("copy", []string{"copydone " + cp.Table.Schema + "." + cp.Table.Name})
 	if v == DropBefore || se.isKilled() {
 		return false, false
 	}
